@@ -228,6 +228,8 @@ def generate(rng, tier, prop):
     for _ in range(n):
         r = rng.random()
         d = rng.randrange(len(cfg["docs"]))
+        if rng.random() < 0.04:
+            ops.append({"op": "tamper_defaults", "how": rng.choice(["clear", "insert", "insert"]), "at": rng.randrange(3)})
         if r < 0.22:
             ops.append({"op": "parse_string", "doc": d, "args": _args(rng)})
         elif r < 0.40:
@@ -286,6 +288,17 @@ class Recording:
 
     def __init__(self):
         self.chunks = []
+        self.closed = False
+
+    def close(self):
+        self.closed = True
+
+    def __enter__(self):
+        return self
+
+    def __exit__(self, *a):
+        self.close()
+        return False
 
     def write(self, s):
         if not isinstance(s, str):
@@ -300,6 +313,10 @@ def execute(run, props):
     disk = simfs.SimDisk(locale=cfg["locale"], platform_newline=cfg["platform_newline"], buffer_size=cfg["buffer"])
     fmts = [mk_format(f) for f in cfg["formats"]]
     libs = []
+    # what "the default stack" is, read once at the start of the run, before any caller could have touched anything
+    pristine_parse = list(mws.default_parse_stack())
+    pristine_unparse = list(mws.default_unparse_stack())
+    tampered = []
 
     def V(clause, sig, step, msg):
         res.violate("C20", clause, f"C20/{clause}/{sig}", step, msg)
@@ -327,10 +344,29 @@ def execute(run, props):
             return True
         return None  # both ok: caller compares values
 
-    with simfs.installed(disk):
+    from .store import _undo
+    with simfs.installed(disk), _undo(tampered):
         for step, op in enumerate(run["ops"]):
             kind = op["op"]
             res.nops += 1
+
+            if kind == "tamper_defaults":
+                # a caller customises the lists it got from the public accessors; the entry points' defaults must not move
+                try:
+                    ps, us = mws.default_parse_stack(), mws.default_unparse_stack()
+                    tampered.append((ps, list(ps)))
+                    tampered.append((us, list(us)))
+                    if op["how"] == "clear":
+                        ps.clear()
+                        us.clear()
+                    else:
+                        ps.insert(op.get("at", 0) % (len(ps) + 1), TagBlock("Z", True))
+                        us.insert(op.get("at", 0) % (len(us) + 1), TagBlock("Z", True))
+                    res.probes["caller_edited_its_copy_of_default_stacks"] += 1
+                except Exception:
+                    pass
+                res.event(step, "tamper_defaults", op["how"], "")
+                continue
 
             if kind == "put":
                 d = cfg["docs"][op["doc"] % len(cfg["docs"])]
@@ -367,7 +403,7 @@ def execute(run, props):
                         if a["full"] is not None:
                             st = build_stack(a["full"], "list")
                         else:
-                            st = mws.default_parse_stack() + (build_stack(a["add"], "list") or [])
+                            st = list(pristine_parse) + (build_stack(a["add"], "list") or [])
                         return fold(st, lib)
                     want = _outcome(explicit) if not both else None
                     label = "parse_string(" + pattern(a) + ")"
@@ -507,7 +543,7 @@ def execute(run, props):
                     if a["full"] is not None:
                         st = build_stack(a["full"], "list")
                     else:
-                        st = (build_stack(a["add"], "list") or []) + mws.default_unparse_stack()
+                        st = (build_stack(a["add"], "list") or []) + list(pristine_unparse)
                     return W.write(fold(st, twin), bibtex_format=f)
 
                 if kind == "write_string":
@@ -531,8 +567,11 @@ def execute(run, props):
 
                 # ---- write_file
                 tgt = op["target"]
-                want = _outcome(lambda: EP.write_string(twin, unparse_stack=build_stack(a["full"], "list"),
-                                                        prepend_middleware=build_stack(a["add"], "list"), bibtex_format=f))
+                if both:
+                    want = ("raised", ValueError("both"))
+                else:
+                    want = _outcome(explicit_text)      # (write_string == this composition is op family (a))
+                pre_target = disk.get(tgt["path"]) if "path" in tgt and tgt["path"] in disk.files else None
                 label = "write_file(" + ("path" if "path" in tgt else tgt["fileobj"]) + "," + pattern(a) + ")"
                 fileobj = None
                 if "path" in tgt:
@@ -546,6 +585,7 @@ def execute(run, props):
                 got = _outcome(lambda: EP.write_file(target, lib, parse_stack=build_stack(a["full"], a["kind"]),
                                                      append_middleware=build_stack(a["add"], a["kind"]), bibtex_format=f))
                 close_exc = None
+                fileobj_closed = fileobj is not None and not isinstance(fileobj, Recording) and fileobj.closed
                 if fileobj is not None and not isinstance(fileobj, Recording):
                     try:
                         fileobj.close()      # the caller owns the object: the caller flushes / closes it
@@ -557,16 +597,29 @@ def execute(run, props):
                 for _, fk in fired:
                     res.faults[fk + "_write"] += 1
                 hard = [fk for _, fk in fired if fk in ("eio", "enospc")]
-                if both:
-                    if compare(step, "write_file", got, None, True) is False:
-                        return res
-                    res.event(step, label, "both", "")
-                    continue
-                if want[0] == "raised":
-                    # the stack itself fails: write_file must fail the same way
-                    if got[0] != "raised" or type(got[1]) is not type(want[1]):
+                if isinstance(fileobj, Recording) and fileobj.closed or (fileobj is not None and not isinstance(fileobj, Recording) and fileobj_closed):
+                    V("file-wrapper", "write_file/closed-the-callers-file-object", step,
+                      "write_file closed a file object that belongs to the caller (it cannot be read back, rewound or written to again)")
+                    return res
+                if want[0] == "raised" or both:
+                    # no text was produced (both arguments given, or the stack itself fails): write_file must fail
+                    # the same way, and since there is nothing to write the target must be as it was
+                    if not both and (got[0] != "raised" or type(got[1]) is not type(want[1])):
                         V("file-wrapper", "write_file/stack-error-not-propagated", step, f"write_string raises {want[1]!r}, write_file: {got}")
                         return res
+                    if "path" in tgt:
+                        now = disk.get(tgt["path"]) if tgt["path"] in disk.files else None
+                        if now != pre_target:
+                            V("file-wrapper", "write_file/target-changed-although-no-text-was-produced", step,
+                              f"write_string raises ({want[1]!r}), so there is no text to write, but the target file went from "
+                              f"{None if pre_target is None else len(pre_target)} to {None if now is None else len(now)} bytes")
+                            return res
+                        res.probes["failed_write_left_target_untouched"] += 1
+                    if both:
+                        if compare(step, "write_file", got, None, True) is False:
+                            return res
+                        res.event(step, label, "both", "")
+                        continue
                     res.event(step, label, "raised:" + type(got[1]).__name__, "")
                     continue
                 text = want[1]
